@@ -4,6 +4,7 @@
 import NiVerif.Model.DigitalTest
 import NiVerif.Gen.Geometry
 import NiVerif.Proofs.Bits
+import NiVerif.Gen.TestLoops
 
 namespace Props.C16
 open Model.DigitalTest Gen.DigitalState
@@ -299,5 +300,154 @@ theorem gen_test_window_inside (s es n : Option Int) (na sa ne se : Int) (g : In
   simp only [argToUintOpt_some', Model.DigitalTest.argToUint] at h
   cases s <;> cases es <;> cases n <;> simp only [Option.getD, Proofs.bind_ite, Proofs.bind_ok, Proofs.bind_error] at h <;>
     (repeat' split at h) <;> (cases h <;> dsimp only <;> omega)
+
+/-! ### T19: the comparison loops regenerated from `DigitalWaveform.test` are the model's -/
+
+section T19
+open Model.DigitalTest
+
+/-- the body of the generated column loop -/
+def colBody (a e : Model.DigitalTest.W) (s es : Int) (column_index : Nat) (failures : List Failure) : Except PyErr (List Failure) :=
+  let signal_index : Int := (a.nsig : Int) - 1 - (column_index : Int)
+  Except.bind (W.at a s column_index) (fun raw_actual_state =>
+  Except.bind (Py.enumCheck Gen.DigitalState.DigitalState_values raw_actual_state) (fun actual_state =>
+  Except.bind (W.at e es column_index) (fun raw_expected_state =>
+  Except.bind (Py.enumCheck Gen.DigitalState.DigitalState_values raw_expected_state) (fun expected_state =>
+  Except.bind (Gen.DigitalState.test actual_state expected_state) (fun failed =>
+  Except.ok (if failed = true then failures ++ [(⟨s, es, signal_index, actual_state, expected_state⟩ : Failure)] else failures))))))
+
+theorem colBody_eq (a e : Model.DigitalTest.W) (s es : Int) (ra re : List Int) (ha : Py.listGetE a.rows s = .ok ra) (he : Py.listGetE e.rows es = .ok re)
+    (c : Nat) (acc : List Failure) :
+    colBody a e s es c acc = (colStep a.nsig ra re s es c).map (fun f => match f with | some x => acc ++ [x] | none => acc) := by
+  unfold colBody colStep W.at
+  rw [ha, he]
+  simp only [Except.bind]
+  cases h1 : Py.listGetE ra c with
+  | error err => rfl
+  | ok x =>
+    simp only
+    cases h2 : Py.enumCheck Gen.DigitalState.DigitalState_values x with
+    | error err => rfl
+    | ok sa =>
+      simp only
+      cases h3 : Py.listGetE re c with
+      | error err => rfl
+      | ok y =>
+        simp only
+        cases h4 : Py.enumCheck Gen.DigitalState.DigitalState_values y with
+        | error err => rfl
+        | ok se =>
+          simp only
+          cases h5 : Gen.DigitalState.test sa se with
+          | error err => rfl
+          | ok failed => cases failed <;> simp [Except.map]
+
+theorem colLoop_acc (a e : Model.DigitalTest.W) (s es : Int) (ra re : List Int) (ha : Py.listGetE a.rows s = .ok ra) (he : Py.listGetE e.rows es = .ok re) :
+    ∀ (k c0 : Nat) (acc : List Failure),
+      Py.forRangeE c0 k acc (colBody a e s es) = (colLoop a.nsig ra re s es (List.range' c0 k)).map (fun r => acc ++ r) := by
+  intro k
+  induction k with
+  | zero => intro c0 acc; simp [Py.forRangeE, colLoop, Except.map]
+  | succ k ih =>
+    intro c0 acc
+    simp only [Py.forRangeE, List.range'_succ, colLoop]
+    rw [colBody_eq a e s es ra re ha he]
+    cases hs : colStep a.nsig ra re s es c0 with
+    | error err => rfl
+    | ok f =>
+      simp only [Except.map, Except.bind]
+      rw [ih]
+      cases hr : colLoop a.nsig ra re s es (List.range' (c0 + 1) k) with
+      | error err => rfl
+      | ok rest => cases f <;> simp [Except.map]
+
+theorem listGetE_ok {α : Type} (l : List α) (i : Int) (h0 : 0 ≤ i) (h1 : i < l.length) : ∃ x, Py.listGetE l i = .ok x := by
+  unfold Py.listGetE
+  have hn : ¬ i < 0 := by omega
+  simp only [hn, if_false]
+  have : i.toNat < l.length := by omega
+  rw [List.getElem?_eq_getElem this]
+  exact ⟨_, rfl⟩
+
+/-- the body of the generated sample loop -/
+def rowBody (a e : Model.DigitalTest.W) (st : List Failure × Int × Int) : Except PyErr (List Failure × Int × Int) :=
+  let failures := st.1
+  let start_sample : Int := st.2.1
+  let expected_start_sample : Int := st.2.2
+  Except.bind (Py.forRangeE 0 a.nsig failures (colBody a e start_sample expected_start_sample)) (fun failures =>
+    Except.ok (failures, start_sample + 1, expected_start_sample + 1))
+
+theorem rowBody_eq (a e : Model.DigitalTest.W) (s es : Int) (acc : List Failure) (ra re : List Int)
+    (ha : Py.listGetE a.rows s = .ok ra) (he : Py.listGetE e.rows es = .ok re) :
+    rowBody a e (acc, s, es) = (colLoop a.nsig ra re s es (List.range a.nsig)).map (fun f => (acc ++ f, s + 1, es + 1)) := by
+  unfold rowBody
+  simp only
+  rw [colLoop_acc a e s es ra re ha he a.nsig 0 acc, List.range_eq_range']
+  cases colLoop a.nsig ra re s es (List.range' 0 a.nsig) <;> rfl
+
+theorem sampleLoop_succ (a e : Model.DigitalTest.W) (n : Nat) (s es : Int) (ra re : List Int)
+    (ha : Py.listGetE a.rows s = .ok ra) (he : Py.listGetE e.rows es = .ok re) :
+    sampleLoop a e (n + 1) s es = (colLoop a.nsig ra re s es (List.range a.nsig)).bind fun f =>
+      (sampleLoop a e n (s + 1) (es + 1)).bind fun rest => .ok (f ++ rest) := by
+  show ((Py.listGetE a.rows s).bind fun ra => (Py.listGetE e.rows es).bind fun re =>
+      (colLoop a.nsig ra re s es (List.range a.nsig)).bind fun f =>
+      (sampleLoop a e n (s + 1) (es + 1)).bind fun rest => .ok (f ++ rest)) = _
+  rw [ha, he]
+  rfl
+
+/-- the generated sample loop, with its running state -/
+theorem sampleLoop_acc (a e : Model.DigitalTest.W) : ∀ (n lo : Nat) (s es : Int) (acc : List Failure),
+    0 ≤ s → s + n ≤ a.rows.length → 0 ≤ es → es + n ≤ e.rows.length →
+    Py.forRangeE lo n (acc, s, es) (fun _ st => rowBody a e st)
+      = (sampleLoop a e n s es).map (fun r => (acc ++ r, s + (n : Int), es + (n : Int))) := by
+  intro n
+  induction n with
+  | zero => intro lo s es acc _ _ _ _; simp [Py.forRangeE, sampleLoop, Except.map]
+  | succ n ih =>
+    intro lo s es acc hs0 hs1 he0 he1
+    obtain ⟨ra, hra⟩ := listGetE_ok a.rows s hs0 (by omega)
+    obtain ⟨re, hre⟩ := listGetE_ok e.rows es he0 (by omega)
+    show ((rowBody a e (acc, s, es)).bind fun s1 => Py.forRangeE (lo + 1) n s1 (fun _ st => rowBody a e st)) = _
+    rw [rowBody_eq a e s es acc ra re hra hre, sampleLoop_succ a e n s es ra re hra hre]
+    cases hc : colLoop a.nsig ra re s es (List.range a.nsig) with
+    | error err => rfl
+    | ok f =>
+      show Py.forRangeE (lo + 1) n (acc ++ f, s + 1, es + 1) (fun _ st => rowBody a e st) = _
+      rw [ih (lo + 1) (s + 1) (es + 1) (acc ++ f) (by omega) (by omega) (by omega) (by omega)]
+      cases hr : sampleLoop a e n (s + 1) (es + 1) with
+      | error err => rfl
+      | ok rest =>
+        show Except.ok (acc ++ f ++ rest, s + 1 + (n : Int), es + 1 + (n : Int)) = Except.ok (acc ++ (f ++ rest), s + ((n + 1 : Nat) : Int), es + ((n + 1 : Nat) : Int))
+        congr 2
+        · simp
+        · congr 1 <;> omega
+
+/-- **the generated comparison loops are the model's `sampleLoop`** for every window that passed the window checks -/
+theorem gen_test_loops_eq_model (a e : Model.DigitalTest.W) (s es : Int) (n : Nat)
+    (hs0 : 0 ≤ s) (hs1 : s + n ≤ a.rows.length) (he0 : 0 ≤ es) (he1 : es + n ≤ e.rows.length) :
+    Gen.TestLoops.test_loops a e s es n = sampleLoop a e n s es := by
+  have h := sampleLoop_acc a e n 0 s es [] hs0 hs1 he0 he1
+  show (Py.forRangeE 0 ((n : Int).toNat) (([] : List Failure), s, es) (fun _ st => rowBody a e st)).map (fun st => st.1) = _
+  rw [Int.toNat_natCast, h]
+  cases sampleLoop a e n s es <;> simp [Except.map]
+
+/-- **the model's `test` is the generated window check followed by the generated loops**: nothing of `DigitalWaveform.test` is left to
+    the hand model but the data representation -/
+theorem gen_test_eq_generated (a e : Model.DigitalTest.W) (start expStart count : Option Int) :
+    Model.DigitalTest.test a e start expStart count
+      = (Gen.Geometry.digital_test_window start expStart count a.rows.length a.nsig e.rows.length e.nsig).bind
+          (fun g => Gen.TestLoops.test_loops a e g.1 g.2.1 g.2.2) := by
+  rw [gen_test_window_eq_model]
+  cases hg : Gen.Geometry.digital_test_window start expStart count a.rows.length a.nsig e.rows.length e.nsig with
+  | error err => rfl
+  | ok g =>
+    obtain ⟨h1, h2, h3, h4, h5, _⟩ := gen_test_window_inside start expStart count _ _ _ _ g hg
+    show Model.DigitalTest.sampleLoop a e g.2.2.toNat g.1 g.2.1 = Gen.TestLoops.test_loops a e g.1 g.2.1 g.2.2
+    have hn : ((g.2.2.toNat : Nat) : Int) = g.2.2 := by omega
+    have := gen_test_loops_eq_model a e g.1 g.2.1 g.2.2.toNat h1 (by omega) h2 (by omega)
+    rw [hn] at this
+    exact this.symm
+
+end T19
 
 end Props.C16
